@@ -43,7 +43,18 @@ package task
 //@   ensures multi ==> (err != nil <==> nCrit > 0)
 
 //@ func (m *Manager) configureTasks(envId uid.ID, tasks Tasks) (err error)
-//@   property C02
+//@   property C02 C13
+//   C13: the environment-wide bind map registers each locally bound channel with the task's HOST substituted into the
+//   endpoint, and exactly that map is handed to the property-map builder
+//@   ghostvar host string = ""
+//@   ghostvar hostOf *Task = nil
+//@   ghostvar te channel.Endpoint = nil
+//@   ghostvar teOk bool = false
+//@   on aftercall (*Task).GetHostname : host = result ; hostOf = arg0
+//@   on call .ToTargetEndpoint : assert arg0 == host && hostOf == task
+//@   on aftercall .ToTargetEndpoint : te = result ; teOk = true
+//@   on mapupdate bindMap : assert teOk && value == te
+//@   on call (Tasks).BuildPropertyMaps : assert arg1 == bindMap
 //@   ghostvar multi bool = false
 //@   ghostvar nCrit int = 0
 //@   ghostvar lastCrit bool = false
@@ -290,3 +301,18 @@ package task
 //@   on call calls.ReconcileTasks : assert len(arg0) == 0 ; implicit = true
 //@   on call calls.CallNoData : assert implicit ; sent = true
 //@   ensures sent
+
+// ---------------------------------------------------------------------------------------------------------
+// C13: inbound channels are configured from the task's own bind map, outbound ones from the environment-wide map, and an
+// outbound channel that cannot be resolved aborts the configuration.
+//@ func (t *Task) BuildPropertyMap(bindMap channel.BindMap) (propMap controlcommands.PropertyMap, err error)
+//@   property C13
+//@   ghostvar outErr bool = false
+//@   on call (*channel.Inbound).ToFMQMap : assert arg1 == t.localBindMap
+//@   on call (*channel.Outbound).ToFMQMap : assert arg1 == bindMap
+//@   on aftercall (*channel.Outbound).ToFMQMap : outErr = outErr || (result1 != nil)
+//@   loop 5 invariant !outErr
+//@   loop 6 invariant !outErr
+//@   loop 7 invariant !outErr
+//@   loop 8 invariant !outErr
+//@   ensures outErr ==> err != nil
